@@ -485,6 +485,14 @@ func (r *Reconciler) Reconcile(ctx context.Context, req reconcile.Request) (reco
 		pr.SetDesiredState(v1.PackageRevisionActive)
 	}
 
+	// A new revision of a package with a manual activation policy starts out
+	// inactive. It must not be left without a desired state: such a revision
+	// is neither deactivated nor allowed to establish control, but still adds
+	// itself to the lock.
+	if pr.GetDesiredState() == "" {
+		pr.SetDesiredState(v1.PackageRevisionInactive)
+	}
+
 	controlRef := meta.AsController(meta.TypedReferenceTo(p, p.GetObjectKind().GroupVersionKind()))
 	controlRef.BlockOwnerDeletion = ptr.To(true)
 	meta.AddOwnerReference(pr, controlRef)
